@@ -2,6 +2,7 @@ import SunriseVerif.Lemmas.Lockup
 import SunriseVerif.Spec.C12
 import SunriseVerif.Props.C13
 import Mathlib.Tactic.Linarith
+import SunriseVerif.Gen.Anchors
 /-!
 C12 — lockup accounts never release locked funds early.
 Part 1: theorems about the kernels REGENERATED from the two `lockup.go` / `continuous_locking_account.go` files
@@ -1326,5 +1327,17 @@ example : ∀ op ∈ exOps, Core op ∧ OpOk op := by
 example : (run exGenesis exOps).created = true ∧ (run exGenesis exOps).DV = 600 ∧ blocked (run exGenesis exOps) = true
     ∧ (run exGenesis exOps).bank.bal "a2" fee = 300 ∧ custody (run exGenesis exOps) = 704
     ∧ (match lockedT (run exGenesis exOps) 181000000000 with | .ok v => v | _ => -1) = 290 := by decide
+
+/-- The self-delegatable lockup's SelfDelegate / WithdrawSelfDelegationUnbonded and the tracking code behind them cannot be
+    reached on the real application (x/selfdelegation's getRootOwner fails first), so no correspondence run ties their
+    model to the code. The model in `Model/Lockup.lean` was written against exactly these sources; an edit of any of them
+    re-opens this obligation until the model has been re-read (the check then reports `no-failing-input-found`). -/
+theorem sd_unreachable_sources_pinned :
+    Sunrise.Gen.Anchors.anchors =
+      [("x/accounts/self_delegatable_lockup/lockup.go", "BaseLockup.TrackDelegation", "57226956ca75a22c"),
+       ("x/accounts/self_delegatable_lockup/lockup.go", "BaseLockup.TrackUndelegation", "28456dd62d49a297"),
+       ("x/accounts/self_delegatable_lockup/lockup.go", "BaseLockup.SelfDelegate", "6f35b30ab35a160f"),
+       ("x/accounts/self_delegatable_lockup/lockup.go", "BaseLockup.WithdrawSelfDelegationUnbonded", "d7146a2bd077903a")] := by
+  decide
 
 end Sunrise.C12
